@@ -33,6 +33,8 @@
 //   maxlen K B              length of the text of the largest (and smallest) value of the kind in base B
 //   atorep K B LEN PAT TAIL igris_ato<K> on PAT repeated to LEN bytes followed by TAIL (long inputs)
 //   seq   K V B1,B2,..      the same value rendered into ONE buffer in several bases, one after the other
+//   twin toa|ato|h2h ...    the same operation on the unanchored copy in igris/container/std_portable.h (finding
+//                           C07-std-portable-twin: every defect repaired in numconvert.c is still in that copy)
 //   asml  W V1 [V2 V3 V4]   debug_asmlink_args<W>x<N>; asmr V: debug_asmlink_ret8..64, _test, dprptr(V), dprptrln(V), debug_print(NULL)
 #include "common/hv.h"
 #include <array>
@@ -69,6 +71,10 @@ extern "C"
     void c07_asmlink_args(int, int, const uint64_t *);
     uint64_t c07_asmlink_ret(int);
     void c07_asmlink_test(void);
+    // harness/C07_twin.cpp: the copy in igris/container/std_portable.h
+    char *c07_twin_toa(int k, unsigned long long v, char *buf, unsigned char base);
+    unsigned long long c07_twin_ato(int k, const char *buf, unsigned char base, char **end);
+    unsigned char c07_twin_hex2half(char c);
 }
 
 // the platform hook of the debug-print library: capture the characters
@@ -131,8 +137,10 @@ static uint64_t extend(uint64_t v, int bits, bool sgn)
     return v;
 }
 
+static bool g_twin = false; // route call_toa / call_ato / hex2half to the std_portable.h copy
 static char *call_toa(int k, uint64_t v, char *buf, uint8_t base)
 {
+    if (g_twin) return c07_twin_toa(k, v, buf, base);
     switch (k)
     {
     case I8: return igris_i8toa((int8_t)v, buf, base);
@@ -148,6 +156,7 @@ static char *call_toa(int k, uint64_t v, char *buf, uint8_t base)
 // returns the w-bit pattern of the result
 static uint64_t call_ato(int k, const char *buf, uint8_t base, char **end)
 {
+    if (g_twin) return c07_twin_ato(k, buf, base, end);
     switch (k)
     {
     case I8: return (uint8_t)igris_atoi8(buf, base, end);
@@ -1059,6 +1068,16 @@ static void run_op(const std::vector<std::string> &w, const std::string &, out &
     hv::arm(20);
     if (!g_block) g_block = (uint8_t *)malloc(BLK);
     if (w.empty()) { o.result = "bad-op"; return; }
+    if (w[0] == "twin" && w.size() >= 2 && !g_twin)
+    {
+        std::vector<std::string> w2(w.begin() + 1, w.end());
+        if (w2[0] != "toa" && w2[0] != "ato" && w2[0] != "h2h") { o.result = "bad-op"; return; }
+        g_twin = true;
+        run_op(w2, "", o);
+        g_twin = false;
+        o.tag("std_portable-twin");
+        return;
+    }
     const std::string &op = w[0];
     if (op == "reset") o.result = "ok";
     else if (op == "toa" && w.size() == 4 && kind_of(w[1]) >= 0) run_toa(w, o);
@@ -1083,7 +1102,7 @@ static void run_op(const std::vector<std::string> &w, const std::string &, out &
     else if (op == "h2h" && w.size() == 2)
     {
         uint8_t c = (uint8_t)h64(w[1]);
-        uint8_t r = hex2half((char)c);
+        uint8_t r = g_twin ? c07_twin_hex2half((char)c) : hex2half((char)c);
         o.result = hexn(r, 2);
         int want = hexval((char)c);
         if (want >= 0)
@@ -1428,6 +1447,26 @@ static void gen(rng &r, const std::string &tier)
                 printf("%s\n", l.c_str());
             }
     for (uint64_t v : boundary_values(r, 64, false, 16, th ? 60 : 10)) printf("asmr %016llx\n", (unsigned long long)v);
+    // (16) the copy in igris/container/std_portable.h.  Where it agrees with the property (renderings of
+    // every value but the minimum of a signed type) it runs in the compared stream; the rest is finding
+    // C07-std-portable-twin (end pointer, base-blind digit test, lower-case hex2half, negation of the minimum)
+    for (int k = 0; k < NKIND; k++)
+        for (unsigned base : {2u, 10u, 16u, 36u, (unsigned)r.range(3, 35)})
+            for (uint64_t v : boundary_values(r, KBITS[k], ksigned(k), base, 2))
+            {
+                bool is_min = ksigned(k) && (v & wmask(KBITS[k])) == (1ull << (KBITS[k] - 1));
+                bool neg = ksigned(k) && ((v >> (KBITS[k] - 1)) & 1);
+                // the copy parses back with the unrepaired parser: only renderings whose parse-back it gets
+                // right could be compared, and it gets none right (end pointer) -> every toa is a probe too
+                (void)neg;
+                if (is_min) continue; // -num on the minimum: one probe below (a sanitizer abort restarts the harness)
+                printf("@F:C07-std-portable-twin twin toa %s %u %016llx\n", KNAME[k], base, (unsigned long long)v);
+            }
+    printf("@F:C07-std-portable-twin twin toa i64 10 8000000000000000\n");
+    for (const char *t : {"3132337800", "00", "666600", "5a00", "3132616200"})
+        printf("@F:C07-std-portable-twin twin ato u32 %s %s\n", t[0] == '6' ? "16" : t[0] == '5' ? "36" : "10", t);
+    for (unsigned c = 'a'; c <= 'f'; c++) printf("@F:C07-std-portable-twin twin h2h %02x\n", c);
+    for (unsigned c : {0x30u, 0x39u, 0x41u, 0x46u}) printf("twin h2h %02x\n", c);
     // (14) one buffer, several calls: a long text first, shorter ones over it, bad bases in between
     for (int i = 0; i < (th ? 400 : 80); i++)
     {
@@ -1456,13 +1495,14 @@ static void gen_wrapper(rng &r, const std::string &tier)
         for (int bi = 0; bi < 2; bi++)
             for (uint64_t lo = part * span; lo < (part + 1) * span; lo += CH)
                 printf("sweep %s %u %016llx %llu\n", KNAME[K2[ki]], B2[bi], (unsigned long long)extend(lo, 32, K2[ki] == I32), (unsigned long long)CH);
-    // round 3: bases 2, 8 and 36 strided over the whole 32-bit space: in every window of 2^22 values the
-    // seed's own 2^18 consecutive ones (1/16 of the space over the 16 seeds = all windows, every offset class)
+    // round 3: bases 2, 8 and 36 strided over the whole 32-bit space: in every 8th window of 2^22 values the
+    // seed's own 2^18 consecutive ones (the 16 seeds together: 1/8 of the space per kind and base, 2^29 values,
+    // every residue class of the window offset)
     static const unsigned B3[3] = {2u, 8u, 36u};
     for (int ki = 0; ki < 2; ki++)
         for (int bi = 0; bi < 3; bi++)
             for (uint64_t win = 0; win < (1ull << 32); win += (1ull << 22))
-                if ((win >> 22) % 4 == (g_seed / NPART + bi + ki) % 4)
+                if ((win >> 22) % 8 == (g_seed / NPART + bi + 3 * ki) % 8)
                     printf("sweep %s %u %016llx %llu\n", KNAME[K2[ki]], B3[bi], (unsigned long long)extend(win + part * CH, 32, K2[ki] == I32), (unsigned long long)CH);
 }
 
